@@ -15,6 +15,8 @@ pub enum NameSel {
     Invalid(u8),
     Dot,
     DotDot,
+    /// one of the sub-directories currently present in the directory (any name if there is none)
+    ExistingDir(u16),
 }
 
 #[derive(Clone, Debug, Serialize, Deserialize, PartialEq)]
@@ -176,7 +178,8 @@ pub fn name_sel(w_invalid: u32) -> impl Strategy<Value = NameSel> {
 
 pub fn dir_name_sel() -> impl Strategy<Value = NameSel> {
     prop_oneof![
-        6 => any::<u16>().prop_map(NameSel::Existing),
+        3 => any::<u16>().prop_map(NameSel::Existing),
+        5 => any::<u16>().prop_map(NameSel::ExistingDir),
         2 => any::<u8>().prop_map(NameSel::Pool),
         1 => any::<u8>().prop_map(NameSel::Invalid),
         2 => Just(NameSel::Dot),
